@@ -269,11 +269,12 @@ def error_to_message(old_pr, log):
             )
             try:
                 msg = e.to_message()
-                if msg is None:
+                if not isinstance(msg, Message):
                     # This deserves a separate check because the ABC checks
                     # that should ensure that the default to_message method is
                     # never used in concrete classes fails due to the metaclass
-                    # conflict between ABC and Exceptions
+                    # conflict between ABC and Exceptions (that gives None;
+                    # anything else that is not a message is as unusable)
                     raise ValueError(
                         "Exception to_message failed to produce a message on %r" % e
                     )
